@@ -14,7 +14,7 @@ def mask_adjacency_array(mask, adjacency_array):
 
 
 def reindex_adjacency_array(adjacency_array):
-    remap_vector = np.arange(np.max(adjacency_array) + 1)
+    remap_vector = np.arange(int(np.max(adjacency_array)) + 1)
     unique_values = np.unique(adjacency_array)
     remap_vector[unique_values] = np.arange(unique_values.shape[0])
 
